@@ -196,6 +196,8 @@ class ExternalVariableCollector(NodeVisitor):
         self.funcnames.add(node.name)
         self.generic_visit(node)
 
+    visit_AsyncFunctionDef = visit_FunctionDef
+
     def visit_AnnAssign(self, node):
         self.visit(node.target)
         if isinstance(node.target, ast.Name):
